@@ -8,6 +8,7 @@ import Drivers.Matrix
 import Drivers.Comm
 import Drivers.NodeCell
 import Drivers.Codec
+import Drivers.Sol
 import Drivers.Dist
 import Drivers.MeshOps
 import Drivers.Cavity
@@ -34,6 +35,7 @@ def main (args : List String) : IO UInt32 := do
   | "comm" :: rest => Drivers.Comm.run rest
   | "nodecell" :: rest => Drivers.NodeCell.run rest
   | "codec" :: rest => Drivers.Codec.run rest
+  | "sol" :: rest => Drivers.Sol.run rest
   | "dist" :: rest => Drivers.Dist.run rest
   | "meshops" :: rest => Drivers.MeshOps.run rest
   | "cavity" :: rest => Drivers.Cavity.run rest
